@@ -434,45 +434,70 @@ section B
 open CpModel.BlockWait
 
 /-- EXITING is stable once `exit()` has written it (every schedule). -/
-theorem C20_exiting_stable (s0 : St) (calls : List BCall) (c : BlockWait.Cfg) (hs : s0 ≠ .exiting)
-    (hl : ExitLast calls = true) (h : C20B.Reach s0 calls c) (he : c.exited = true)
-    (sched : List BlockWait.Tid) : (BlockWait.run c sched).state = .exiting :=
-  C20B.C20_exiting_stable s0 calls c hs hl h he sched
+theorem C20_exiting_stable (s0 : St) (calls : List BCall) (fr : List Bool) (c : BlockWait.Cfg)
+    (hs : s0 ≠ .exiting) (hl : ExitLast calls = true) (h : C20B.Reach s0 calls fr c)
+    (he : c.exited = true) (sched : List BlockWait.Tid) : (BlockWait.run c sched).state = .exiting :=
+  C20B.C20_exiting_stable s0 calls fr c hs hl h he sched
 
-/-- `block()` returns once the bus is EXITING, under any schedule that gives main 5 turns. -/
-theorem C20_block_returns (s0 : St) (calls : List BCall) (c : BlockWait.Cfg) (hs : s0 ≠ .exiting)
-    (hl : ExitLast calls = true) (h : C20B.Reach s0 calls c) (he : c.exited = true)
-    (sched : List BlockWait.Tid) (hf : 5 ≤ sched.count .main) : (BlockWait.run c sched).mpc = .done :=
-  C20B.C20_block_returns s0 calls c hs hl h he sched hf
+/-- `block()` returns once the bus is EXITING and the non-daemon foreign threads have finished,
+    under any schedule that gives main `2 * #foreign + 14` turns. -/
+theorem C20_block_returns (s0 : St) (calls : List BCall) (fr : List Bool) (c : BlockWait.Cfg)
+    (hs : s0 ≠ .exiting) (hl : ExitLast calls = true) (h : C20B.Reach s0 calls fr c)
+    (he : c.exited = true) (hfd : C20B.ForeignDone c) (sched : List BlockWait.Tid)
+    (hf : 2 * c.foreign.length + 14 ≤ sched.count .main) : (BlockWait.run c sched).mpc = .done :=
+  C20B.C20_block_returns s0 calls fr c hs hl h he hfd sched hf
 
 /-- ... and never earlier. -/
-theorem C20_block_only_after_exiting (s0 : St) (calls : List BCall) (c : BlockWait.Cfg)
-    (hs : s0 ≠ .exiting) (hl : ExitLast calls = true) (h : C20B.Reach s0 calls c)
-    (hm : c.mpc = .tail ∨ c.mpc = .done) : c.exited = true ∧ c.state = .exiting :=
-  C20B.C20_block_only_after_exiting s0 calls c hs hl h hm
+theorem C20_block_only_after_exiting (s0 : St) (calls : List BCall) (fr : List Bool)
+    (c : BlockWait.Cfg) (hs : s0 ≠ .exiting) (hl : ExitLast calls = true)
+    (h : C20B.Reach s0 calls fr c) (hm : C20B.leftWait c.mpc) : c.exited = true ∧ c.state = .exiting :=
+  C20B.C20_block_only_after_exiting s0 calls fr c hs hl h hm
 
-theorem C20_execv_iff_restart (s0 : St) (calls : List BCall) (c : BlockWait.Cfg) (hs : s0 ≠ .exiting)
-    (hl : ExitLast calls = true) (h : C20B.Reach s0 calls c) (hm : c.mpc = .done) :
-    c.execvDone = true ↔ BCall.restart ∈ calls :=
-  C20B.C20_execv_iff_restart s0 calls c hs hl h hm
+theorem C20_execv_iff_restart (s0 : St) (calls : List BCall) (fr : List Bool) (c : BlockWait.Cfg)
+    (hs : s0 ≠ .exiting) (hl : ExitLast calls = true) (h : C20B.Reach s0 calls fr c)
+    (hm : c.mpc = .done) : c.execvDone = true ↔ BCall.restart ∈ calls :=
+  C20B.C20_execv_iff_restart s0 calls fr c hs hl h hm
+
+/-- which threads `block()` joins: only non-daemon foreign threads (never the caller, never the
+    `_MainThread`, no daemon) -/
+theorem C20_block_joins_only_nondaemon (s0 : St) (calls : List BCall) (fr : List Bool)
+    (c : BlockWait.Cfg) (h : C20B.Reach s0 calls fr c) :
+    ∀ k ∈ c.joined, k < c.foreign.length ∧ c.foreign.getD k true = false :=
+  C20B.C20_block_joins_only_nondaemon s0 calls fr c h
+
+/-- ... and all of them: past the join loop every non-daemon foreign thread has finished -/
+theorem C20_block_waits_for_foreign (s0 : St) (calls : List BCall) (fr : List Bool)
+    (c : BlockWait.Cfg) (h : C20B.Reach s0 calls fr c)
+    (hm : c.mpc = .ex ∨ c.mpc = .dx ∨ c.mpc = .done) : C20B.ForeignDone c :=
+  C20B.C20_block_waits_for_foreign s0 calls fr c h hm
+
+/-- execv (restart) only after those joins -/
+theorem C20_execv_after_joins (s0 : St) (calls : List BCall) (fr : List Bool) (c : BlockWait.Cfg)
+    (hs : s0 ≠ .exiting) (hl : ExitLast calls = true) (h : C20B.Reach s0 calls fr c)
+    (hx : c.execvDone = true) : C20B.ForeignDone c :=
+  C20B.C20_execv_after_joins s0 calls fr c hs hl h hx
 
 /-- B: at every observed point of an admitted trace: `block()` has left its loop only after EXITING
     was written (and it still holds), and when it has returned execv was performed iff `restart()`
     was among the calls -/
-theorem C20_admitted_B_safe (calls : List BCall) (o0 : String) (tr : List (BlockWait.Tid × String))
-    (hl : ExitLast calls = true)
+theorem C20_admitted_B_safe (calls : List BCall) (fr : List Bool) (o0 : String)
+    (tr : List (BlockWait.Tid × String)) (hl : ExitLast calls = true)
     (h : CpModel.C20Admit.admitsInit BlockWait.step BlockWait.enabled (BlockWait.obsStr calls.length)
-      BlockWait.keyStr CpModel.C20Admit.FUEL (BlockWait.init .started calls) o0 tr = true) :
+      BlockWait.keyStr CpModel.C20Admit.FUEL (BlockWait.init .started calls fr) o0 tr = true) :
     ∃ cs : List BlockWait.Cfg, cs.map (BlockWait.obsStr calls.length) = tr.map (·.2) ∧
-      ∀ c ∈ cs, C20B.Reach .started calls c ∧
-        ((c.mpc = .tail ∨ c.mpc = .done) → c.exited = true ∧ c.state = .exiting) ∧
-        (c.mpc = .done → (c.execvDone = true ↔ BCall.restart ∈ calls)) := by
+      ∀ c ∈ cs, C20B.Reach .started calls fr c ∧
+        (C20B.leftWait c.mpc → c.exited = true ∧ c.state = .exiting) ∧
+        (c.mpc = .done → (c.execvDone = true ↔ BCall.restart ∈ calls)) ∧
+        (∀ k ∈ c.joined, k < c.foreign.length ∧ c.foreign.getD k true = false) ∧
+        (c.mpc = .done → C20B.ForeignDone c) := by
   obtain ⟨_, cs, hf⟩ := C20Admit.admitsInit_sound _ _ _ _ _ _ _ _ h
-  obtain ⟨h1, h2⟩ := C20Admit.follows_inv (P := C20B.Reach .started calls) (fun _ t hc => .step t hc) .init hf
+  obtain ⟨h1, h2⟩ := C20Admit.follows_inv (P := C20B.Reach .started calls fr) (fun _ t hc => .step t hc) .init hf
   refine ⟨cs, h2, fun c hc => ?_⟩
   have hr := h1 c hc
-  exact ⟨hr, C20B.C20_block_only_after_exiting .started calls c (by decide) hl hr,
-    C20B.C20_execv_iff_restart .started calls c (by decide) hl hr⟩
+  exact ⟨hr, C20B.C20_block_only_after_exiting .started calls fr c (by decide) hl hr,
+    C20B.C20_execv_iff_restart .started calls fr c (by decide) hl hr,
+    C20B.C20_block_joins_only_nondaemon .started calls fr c hr,
+    fun hm => C20B.C20_block_waits_for_foreign .started calls fr c hr (Or.inr (Or.inr hm))⟩
 end B
 
 section T
